@@ -1,6 +1,7 @@
 -- FALLBACK copy (tools/gotolean refused the current util.go): the translation of the pinned sources, kept so that the project builds; the flags say that the tie is by correspondence only.
 import Jmes.Slice
 import Jmes.Value
+import Jmes.Ast
 namespace Jmes.GenSlice
 open Jmes.Slice (wrap64)
 
@@ -275,5 +276,27 @@ def indexSel (length : Int) (index : Int) : Option Int :=
       some index
     else
       none
+
+/-- interpreter.go, `case ASTComparator:` after the operands are evaluated: the statements in order -/
+def comparatorTranslated : Bool := false
+
+def compareVals {N : Type} [NumOps N] (op : Cmp) (left right : Val N) : Val N :=
+  match op with
+  | .eq => .bool (Val.deepEq left right)
+  | .ne => .bool (!(Val.deepEq left right))
+  | _ =>
+    match left with
+    | .num leftNum =>
+      match right with
+      | .num rightNum =>
+        match op with
+        | .gt => .bool (NumOps.lt rightNum leftNum)
+        | .gte => .bool (NumOps.le rightNum leftNum)
+        | .lt => .bool (NumOps.lt leftNum rightNum)
+        | .lte => .bool (NumOps.le leftNum rightNum)
+        | _ =>
+          .null  -- falls out of the clause
+      | _ => .null
+    | _ => .null
 
 end Jmes.GenSlice
